@@ -23,10 +23,21 @@ FitEntryWhy(o, c, val) ==
               /\ NumIs(o.pa, PMode(c.prior), c.prior.a) /\ NumIs(o.pb, PMode(c.prior), c.prior.b)) THEN "fit_priors"
     ELSE "ok"
 
+\* between compiles only mutual consistency is required of the views: name and prior in one space,
+\* reported value = model value in that space
+Inconsistent(o, post) == IF o.nsp # o.psp THEN "fit_names"
+                         ELSE IF o.n \in PSet /\ ~(IF o.psp = "log" THEN o.v.i = post.val[o.n].p ELSE o.v = post.val[o.n])
+                              THEN "fit_values" ELSE "ok"
 \* first clause on which the logged projection differs from the specification's state ("ok" if none)
-Why(post, cmp, cder, val, e) ==
+\* full: after compile_params / update_model / write_back the whole set-up is compared
+Why(post, cmp, cder, val, e, full) ==
     IF post.err # e THEN (IF e THEN "unknown_is_error" ELSE "known_is_accepted")
     ELSE IF ~post.ok THEN "views_readable"
+    ELSE IF ~full THEN
+         IF \E i \in 1..Len(post.fit) : Inconsistent(post.fit[i], post) # "ok"
+         THEN Inconsistent(post.fit[CHOOSE i \in 1..Len(post.fit) : Inconsistent(post.fit[i], post) # "ok"], post)
+         ELSE IF \E p \in PSet : ~NumIs(post.val[p], "linear", val[p]) THEN "values"
+         ELSE "ok"
     ELSE IF Len(post.fit) # Len(cmp) THEN "fit_names"
     ELSE IF \E i \in 1..Len(cmp) : FitEntryWhy(post.fit[i], cmp[i], val) # "ok"
          THEN LET i == CHOOSE i \in 1..Len(cmp) : FitEntryWhy(post.fit[i], cmp[i], val) # "ok"
@@ -60,7 +71,8 @@ Step == /\ l <= Len(TraceLog)
              IF e.op = "init" THEN Reset /\ skip' = FALSE
              ELSE IF skip THEN UNCHANGED <<vars, skip>>
              ELSE /\ Apply(e)
-                  /\ LET w == Why(e.post, compiled', compiledDer', value', err') IN
+                  /\ LET w == Why(e.post, compiled', compiledDer', value', err',
+                                   e.op \in {"compile_params", "update_model", "write_back"}) IN
                        IF w = "ok" THEN skip' = FALSE
                        ELSE /\ PrintT(<<"BAD", ToJson([l |-> l, tid |-> e.tid, step |-> e.step, why |-> w, op |-> e.op])>>)
                             /\ skip' = TRUE
